@@ -21,6 +21,7 @@ RULE_KINDS = {
     "stuffing/": "finite-exhaustive", "chunk/": "finite-exhaustive", "chunk/state-reset-per-message": "structural", "terminator/": "finite-exhaustive",
     "stuffing/writer-semantics (bounded)": "bounded", "terminator/emitted-on-own-line (bounded)": "bounded",
     "client/": "bounded", "filesender/": "bounded", "reader/": "bounded", "do_DATA-eval/": "bounded", "dispatch-eval/": "bounded",
+    "transaction-state/": "structural", "transaction-eval/": "bounded",
 }
 SMTP = "mail/smtp.py"
 BASIC = "protocols/basic.py"
@@ -32,14 +33,14 @@ EXPLANATION = (
     'er the transform, completion only on the empty-read branch; in the DATA handler every non-terminator path reaches mess'
     'age.lineReceived after de-stuffing and the terminator is not delivered; lineReceived dispatches state_<mode>, state_DA'
     'TA is the handler and never reaches the command interpreter; self.mode writers are an allow-list closed over the intra'
-    '-class call graph; do_DATA (normalised; absence-based verdicts abstain when a helper could not be inlined) arms DATA mode and the per-message state before 354 and leaves it again on every refusal; delimiters agree. FINITE-EXHAUSTIVE (d'
+    '-class call graph; do_DATA (normalised; absence-based verdicts abstain when a helper could not be inlined) arms DATA mode and the per-message state before 354 and leaves it again on every refusal; every attribute the DATA handler reads in a test (or iterates) guarding message.lineReceived and itself changes is written on every do_DATA path to 354 (else a note when the handler puts it back after end of data); delimiters agree. FINITE-EXHAUSTIVE (d'
     "omain premise checked on the code): the transformer mentions only '.', CR, LF, rewrites windows of <= 2 source units a"
     "nd carries one flag, so every body over {'.', LF, other}^<=4 under every chunking is a complete domain - no '.' off a "
     "line start doubled, no other byte changed, in-chunk line starts stuffed; a chunk-initial line-start '.' is not (known "
     "finding F40); the handler's guards read the line only by comparison with constants, so {empty, '.', '.'+rest, other} i"
     "s complete - end of data exactly at '.', one dot stripped; finishedFileTransfer compares its argument with constants o"
     'nly - every class of last byte. BOUNDED second layer (scenarios with recording stand-ins): wiring, FileSender call aft'
-    'er call, the handler line by line incl. a refusing message sink. Not decided: end-to-end body equality, over-long line'
+    'er call, the handler line by line incl. a refusing message sink, two messages on one connection the first refused mid-body. Not decided: end-to-end body equality, over-long line'
     's; LineOnlyReceiver framing is included from C16.'
 )
 ASSUMPTIONS = [
@@ -869,6 +870,144 @@ def _eval_do_data(ctx):
                   "(else the client's next commands are swallowed as body)")
 
 
+def _self_reads(e):
+    return {x.attr for x in ast.walk(e) if isinstance(x, ast.Attribute) and isinstance(x.ctx, ast.Load) and isinstance(x.value, ast.Name) and x.value.id == "self"}
+
+
+def _struct_transaction_state(ctx):
+    """Per-transaction state, discovered by role: an attribute of self that the DATA handler reads in a test (or iterates) that decides
+    whether a body line reaches the message objects, and that the handler itself changes while a message is received, must be
+    written on every path of do_DATA that ends in the 354 reply - otherwise what one message left behind decides the fate of the
+    lines of the next."""
+    defs = _definitions(ctx, ["SMTP"], "state_DATA")
+    if len(defs) != 1:
+        raise Abstain("SMTP.state_DATA does not resolve to one method")
+    rname = defs[0][1].name
+    keep = ("do_DATA", rname, "lineReceived", "sendCode", "_messageHandled", "_disconnect", "lineLengthExceeded")
+    fr = _norm_method(ctx, SMTP, "SMTP", rname, keep=keep)
+    fd = _norm_method(ctx, SMTP, "SMTP", "do_DATA", keep=keep)
+    qd, qr = "twisted.mail.smtp.SMTP.do_DATA", f"twisted.mail.smtp.SMTP.{rname}"
+    known = ("self._disconnect", "self._messageHandled")
+    for f_ in (fr, fd):
+        opaque = sorted({call_name(c) for c in ast.walk(f_) if isinstance(c, ast.Call) and (call_name(c) or "").startswith("self._") and call_name(c) not in known})
+        if opaque:
+            raise Abstain(f"private helper {opaque[0]} could not be inlined in {f_.name}")
+    gr, gd = ctx.cfg(fr), ctx.cfg(fd)
+    is_delivery = lambda x: isinstance(x, ast.Call) and call_attr(x) == "lineReceived" and len(x.args) == 1  # noqa: E731
+    sites = gr.find(is_delivery)
+    if not sites:
+        raise Abstain("no message.lineReceived(...) call in the DATA handler")
+    guard_reads = set()
+    for s_ in sites:
+        for t, _ in gr.edge_guards(s_):
+            guard_reads |= _self_reads(gr.node(t).ast)
+    for loop in ast.walk(fr):
+        if isinstance(loop, (ast.For, ast.While)) and any(is_delivery(x) for b in loop.body for x in ast.walk(b)):
+            guard_reads |= _self_reads(loop.iter if isinstance(loop, ast.For) else loop.test)
+        if isinstance(loop, (ast.ListComp, ast.GeneratorExp)) and is_delivery(loop.elt):
+            for gen in loop.generators:
+                guard_reads |= _self_reads(gen.iter)
+    changed = set()
+    for st in ast.walk(fr):
+        tg = _targets(st) + (list(st.targets) if isinstance(st, ast.Delete) else [])
+        for t in tg:
+            for e in (t.elts if isinstance(t, (ast.Tuple, ast.List)) else [t]):
+                if isinstance(e, ast.Attribute) and isinstance(e.value, ast.Name) and e.value.id == "self":
+                    changed.add(e.attr)
+    state = sorted(guard_reads & changed)
+    if not state:
+        raise Abstain("the DATA handler keeps no state of its own that decides delivery")
+    go = gd.find(lambda x: isinstance(x, ast.Call) and call_name(x) == "self.sendCode" and x.args and isinstance(x.args[0], ast.Constant) and x.args[0].value == 354)
+    if not go:
+        raise Abstain("self.sendCode(354, ...) not found in the normalised do_DATA")
+    ends = gr.ids(lambda n: n.kind == "stmt" and isinstance(n.ast, ast.Assign) and any(is_self_attr(t, "mode") for t in n.ast.targets))
+    after_end = gr.reach(ends) if ends else set()
+    for attr in state:
+        def writes_attr(n, attr=attr):
+            return n.kind == "stmt" and isinstance(n.ast, (ast.Assign, ast.AnnAssign)) and any(
+                is_self_attr(e, attr) for t in _targets(n.ast) for e in (t.elts if isinstance(t, (ast.Tuple, ast.List)) else [t]))
+        writes = gd.ids(writes_attr)
+        wit = gd.must_precede(writes, go, exc=False) if writes else gd.path([gd.entry], go, edge_ok=lambda a, b, l: l != "exc")
+        if writes and wit is None:
+            ctx.ok("transaction-state/reset-before-354", f"{qd} | self.{attr}")
+            continue
+        # the other sound design: the handler itself puts the attribute back when the transfer ends
+        put_back = [n for n in gr.ids(writes_attr) if n in after_end and isinstance(gr.node(n).ast.value, ast.Constant)]
+        if put_back:
+            ctx.note(f"transaction-state/reset-before-354: self.{attr} is not written on every path of do_DATA to 354, but {rname} assigns it a constant after the end of "
+                     "data; clause left to transaction-eval/message-after-refused-one (bounded)")
+            continue
+        ctx.check(False, "transaction-state/reset-before-354", f"{qd} | self.{attr}",
+                  f"{rname} decides from self.{attr} whether a body line reaches the message objects and changes it while a message is received, but do_DATA can reach "
+                  f"its 354 reply without writing self.{attr}: what the previous message on the connection left there decides whether the lines of this one are delivered "
+                  "(after one refused message every later body would be dropped)", witness=gd.describe(wit),
+                  detail=f"delivery-guard reads {sorted(guard_reads)!r}, changed by the handler {sorted(changed)!r} ({qr})")
+
+
+def _eval_two_messages(ctx):
+    """Two DATA transactions on one connection (do_DATA and the DATA handler interpreted on one shared instance state); the message
+    object of the first refuses its second body line.  The second message must still reach its own message object exactly."""
+    mod = ctx.mod(SMTP)
+    cls = ctx.cls(SMTP, "SMTP")
+    menv = module_env(mod)
+    defs = _definitions(ctx, ["SMTP"], "state_DATA")
+    ctx.need(len(defs) == 1, "SMTP.state_DATA resolves to one method")
+    rname = defs[0][1].name
+    q = "twisted.mail.smtp.SMTP.do_DATA ~ " + rname
+    sent, handled = [], []
+    first = _Recorder("message 1")
+    seen = []
+
+    def refuse_second(ln):
+        seen.append(ln)
+        if len(seen) >= 3:          # Received header, first body line, then refuse
+            raise SMTPServerError(552, b"over quota")
+    refuse_second.__name__ = "lam"
+    first._returns["lineReceived"] = refuse_second
+    second = _Recorder("message 2")
+    dl = _Recorder("DeferredList")
+    dl._returns["addCallback"] = lambda *a, **kw: handled.append(a) or dl
+    funcs = FollowModule(mod, dict(COMPAT), menv)
+    funcs["defer.DeferredList"] = lambda *a, **kw: dl
+    funcs["DeferredList"] = funcs["defer.DeferredList"]
+    env = class_env([cls], menv)
+    env.update({"self": object(), "self.mode": menv["COMMAND"], "self._helo": (None, "h"), "self.noisy": False,
+                "self.receivedHeader": lambda *a, **kw: b"Received: x", "self.sendCode": lambda code, *a, **kw: sent.append(code),
+                "self._messageHandled": lambda *a, **kw: handled.append(a), "self._disconnect": lambda *a, **kw: None})
+    bind_methods(env, [cls], funcs)
+
+    def transaction(message, lines):
+        factory = lambda: message       # noqa: E731
+        factory.__name__ = "lam"
+        env["self._from"], env["self._to"] = "a@b", [("u@d", factory)]
+        del sent[:], handled[:]
+        try:
+            env["self.do_DATA"](b"")
+            replies = {"DATA": list(sent), "mode": env.get("self.mode")}
+            for ln in lines:
+                env["self." + rname](ln)
+        except (BlockRaised, Raised) as ex:
+            raise AnalysisError(f"{q}: not evaluable ({ex})")
+        replies["end"] = list(sent[len(replies["DATA"]):])
+        replies["after"] = env.get("self.mode")
+        return replies
+    r1 = transaction(first, [b"Subject: one", b"", b"too much", b"more", b"."])
+    ctx.check(r1["DATA"] == [354] and r1["after"] == menv["COMMAND"] and r1["end"] and r1["end"] != [250] and not any(n == "eomReceived" for n, a, kw in first.calls),
+              "transaction-eval/refused-message-reported", q + " | first message, refused at its second body line",
+              f"replies to DATA {r1['DATA']!r}, to the terminating '.' {r1['end']!r}, mode afterwards {r1['after']!r}: a message whose sink refused a line must be answered with "
+              "an error at its terminating '.', not completed")
+    body = [b"Subject: two", b"", b"..leading dot", b"plain", b"."]
+    r2 = transaction(second, body)
+    got = [a[0] for n, a, kw in second.calls if n == "lineReceived"]
+    want = [b"Received: x", b"Subject: two", b"", b".leading dot", b"plain"]
+    eom = sum(1 for n, a, kw in second.calls if n == "eomReceived")
+    ctx.check(r2["DATA"] == [354] and got == want and eom == 1 and r2["after"] == menv["COMMAND"] and not r2["end"] and len(handled) == 1,
+              "transaction-eval/message-after-refused-one", q + " | second message on the same connection",
+              f"after a first message that was refused mid-body, the next message is answered {r2['DATA']!r}, its message object receives {got!r} (required {want!r}), "
+              f"eomReceived x{eom}, direct replies to its '.' {r2['end']!r}: every message on a connection must reach its message object exactly, whatever happened to the "
+              "one before")
+
+
 def _check_do_data(ctx):
     f = _norm_method(ctx, SMTP, "SMTP", "do_DATA", keep=("do_DATA", "dataLineReceived", "lineReceived", "sendCode", "_messageHandled", "_disconnect", "lineLengthExceeded"))
     g = ctx.cfg(f)
@@ -946,6 +1085,10 @@ def check(ctx):
         _check_do_data(ctx)
     with sect(ctx, "do_DATA evaluated"):
         _eval_do_data(ctx)
+    with structural(ctx, "transaction-state/*", "transaction-eval/* (bounded)"):
+        _struct_transaction_state(ctx)
+    with sect(ctx, "two messages on one connection"):
+        _eval_two_messages(ctx)
 
 
 MUTANTS = [
@@ -989,8 +1132,14 @@ MUTANTS = [
     Mutant("dispatch-strips-the-line", SMTP, '        return getattr(self, "state_" + self.mode)(line)\n', '        handler = getattr(self, "state_" + self.mode)\n        return handler(line.strip())\n',
            expect_rule="dispatch"),
     Mutant("header-state-not-reset", SMTP, "        self.__inheader = self.__inbody = 0\n        self.sendCode(354", "        self.__inbody = 0\n        self.sendCode(354", expect_rule="do_DATA/armed-before-354"),
+    Mutant('refusal-flag-initialised-once-per-connection', SMTP, '        self._to = []\n        self.datafailed = None\n\n        msgs = []\n', '        self._to = []\n\n        msgs = []\n', more=[(SMTP, '        self._helo = None\n        self._to = []\n        self.delivery = delivery\n', '        self._helo = None\n        self._to = []\n        self.datafailed = None\n        self.delivery = delivery\n')], expect_rule='transaction-state/reset-before-354'),
+    Mutant('refusal-flag-cleared-only-after-354-when-noisy', SMTP, '        self._to = []\n        self.datafailed = None\n\n        msgs = []\n', '        self._to = []\n\n        msgs = []\n', more=[(SMTP, '        if self.noisy:\n            fmt = "Receiving message for delivery: from=%s to=%s"\n', '        if self.noisy:\n            self.datafailed = None\n            fmt = "Receiving message for delivery: from=%s to=%s"\n'), (SMTP, '        self._helo = None\n        self._to = []\n        self.delivery = delivery\n', '        self._helo = None\n        self._to = []\n        self.datafailed = None\n        self.delivery = delivery\n')], expect_rule='transaction-state/reset-before-354'),
+    Mutant('refusal-flag-cleared-by-RSET-instead-of-DATA', SMTP, '        self._to = []\n        self.datafailed = None\n\n        msgs = []\n', '        self._to = []\n\n        msgs = []\n', more=[(SMTP, '    def do_RSET(self, rest):\n        self._from = None\n', '    def do_RSET(self, rest):\n        self.datafailed = None\n        self._from = None\n'), (SMTP, '        self._helo = None\n        self._to = []\n        self.delivery = delivery\n', '        self._helo = None\n        self._to = []\n        self.datafailed = None\n        self.delivery = delivery\n')], expect_rule='transaction-eval/message-after-refused-one'),
 ]
 SILENT = [
+    Silent('transaction-reset-in-a-private-helper', SMTP, '        self._from = None\n        self._to = []\n        self.datafailed = None\n\n        msgs = []\n', '        self._newTransaction()\n\n        msgs = []\n', more=[(SMTP, '    def do_DATA(self, rest):\n', '    def _newTransaction(self):\n        self._from = None\n        self._to = []\n        self.datafailed = None\n\n    def do_DATA(self, rest):\n')]),
+    Silent('refusal-flag-put-back-at-end-of-data', SMTP, '        self._to = []\n        self.datafailed = None\n\n        msgs = []\n', '        self._to = []\n\n        msgs = []\n', more=[(SMTP, '                    self.sendCode(self.datafailed.code, self.datafailed.resp)\n                    return\n', '                    self.sendCode(self.datafailed.code, self.datafailed.resp)\n                    self.datafailed = None\n                    return\n'), (SMTP, '        self._helo = None\n        self._to = []\n        self.delivery = delivery\n', '        self._helo = None\n        self._to = []\n        self.datafailed = None\n        self.delivery = delivery\n')]),
+    Silent('refusal-flag-reset-first-thing-after-precondition', SMTP, '        self._to = []\n        self.datafailed = None\n\n        msgs = []\n', '        self._to = []\n\n        msgs = []\n', more=[(SMTP, '        self.mode = DATA\n        helo, origin = self._helo, self._from\n', '        self.datafailed = None\n        self.mode = DATA\n        helo, origin = self._helo, self._from\n')]),
     Silent('line-start-flag-by-endswith', SMTP, '            self._bodyAtLineStart = chunk[-1:] == b"\\n"\n', '            self._bodyAtLineStart = chunk.endswith(b"\\n")\n'),
     Silent('regex-stuffing-line-start-aware-across-chunks', SMTP, '        chunk = chunk.replace(b"\\n", b"\\r\\n").replace(b"\\r\\n.", b"\\r\\n..")\n        # The period which starts the message, or which starts a chunk right\n        # after a line ending, has no preceding newline within this chunk.\n        if self._bodyAtLineStart and chunk[:1] == b".":\n            chunk = b"." + chunk\n        if chunk:\n            self._bodyAtLineStart = chunk[-1:] == b"\\n"\n        return chunk\n', '        pad = b"" if self._bodyAtLineStart else b"x"\n        out = self._lineStartDot.sub(b"..", pad + chunk)[len(pad):]\n        if chunk:\n            self._bodyAtLineStart = chunk[-1:] == b"\\n"\n        return out.replace(b"\\n", b"\\r\\n")\n', more=[(SMTP, '    ## Helpers for FileSender\n    ##\n', '    ## Helpers for FileSender\n    ##\n    _lineStartDot = re.compile(rb"^\\.", re.MULTILINE)\n\n')]),
     Silent("filesender-chunk-writer-extracted", BASIC, "        if self.transform:\n            chunk = self.transform(chunk)\n        self.consumer.write(chunk)\n        self.lastSent = chunk[-1:]\n",
